@@ -397,6 +397,44 @@ Proof.
     + intros ->. reflexivity.
 Qed.
 
+(** a list of list words is the image of its indices *)
+Lemma known_tokens ts : forallb known ts = true ->
+  ts = map Word (map idx ts) /\ Forall small (map idx ts).
+Proof.
+  induction ts as [|t ts IH]; cbn [forallb map]; intros H; [split; [reflexivity|constructor]|].
+  apply andb_true_iff in H. destruct H as [Ht Hts]. destruct (IH Hts) as [E F].
+  unfold known, idx, word_index in *. destruct t as [i|]; [|discriminate].
+  destruct (i <? 2048) eqn:Hi; [|discriminate]. apply N.ltb_lt in Hi.
+  split; [rewrite <- E; reflexivity|constructor; assumption].
+Qed.
+
+(** The decoder rejects exactly the phrases that have a defect, and the error it reports
+    names one of the defects the phrase has (whatever the order of the validations). *)
+Theorem rejects_iff_defective ts :
+  (decode cks ts = None <-> defects cks ts <> []) /\
+  (forall d, named_defect (decode_res cks ts) = Some d -> In d (defects cks ts)).
+Proof.
+  unfold decode, defects.
+  destruct (Nat.eqb (length ts) 12) eqn:Hlen.
+  2:{ unfold decode_res. rewrite Hlen. cbn [negb named_defect andb app]. split.
+      - split; [intros _; discriminate|reflexivity].
+      - intros d [= <-]. left. reflexivity. }
+  destruct (forallb known ts) eqn:Hk.
+  2:{ unfold decode_res. rewrite Hlen, Hk. cbn [negb named_defect andb app]. split.
+      - split; [intros _; discriminate|reflexivity].
+      - intros d [= <-]. left. reflexivity. }
+  cbn [andb app]. apply Nat.eqb_eq in Hlen.
+  destruct (known_tokens ts Hk) as [E F].
+  assert (Ed : decode_res cks ts = decode_res cks (map Word (map idx ts))) by (rewrite <- E; reflexivity).
+  assert (Hl : length (map idx ts) = 12%nat) by (rewrite map_length; exact Hlen).
+  rewrite Ed, (decode_res_words cks (map idx ts) Hl F). cbv zeta.
+  destruct (_ =? _); cbn [named_defect]; split.
+  - split; [discriminate|intros H; exfalso; apply H; reflexivity].
+  - discriminate.
+  - split; [intros _; discriminate|reflexivity].
+  - intros d [= <-]. left. reflexivity.
+Qed.
+
 Theorem phrase_unique ws ws' r :
   length ws = 12%nat -> Forall (fun w => w < 2048) ws ->
   length ws' = 12%nat -> Forall (fun w => w < 2048) ws' ->
@@ -534,6 +572,16 @@ Example ex_unknown :
 Proof. vm_compute. split; [reflexivity|]. split; [|reflexivity]. tauto. Qed.
 Example ex_out_of_list : decode_res toy_cks (map Word (firstn 11 ex_ws ++ [2048])) = DErrWord.
 Proof. vm_compute. reflexivity. Qed.
+
+(** [rejects_iff_defective]: defect sets of the phrases above; a doubly malformed phrase has
+    two defects (the code reports the count, another order of validation may report the word) *)
+Example ex_defects :
+  defects toy_cks (map Word ex_ws) = [] /\
+  defects toy_cks (map Word ex_bad) = [BadChecksum] /\
+  defects toy_cks (map Word (firstn 11 ex_ws)) = [WrongCount] /\
+  defects toy_cks (Unknown :: map Word ex_ws) = [WrongCount; UnknownWord] /\
+  decode_res toy_cks (Unknown :: map Word ex_ws) = DErrCount.
+Proof. vm_compute. repeat split. Qed.
 
 (** hypotheses of [phrase_unique] and of the derivation theorems *)
 Example ex_le64 : le64 0x0102030405060708 = [8;7;6;5;4;3;2;1] /\ be64 0x0102030405060708 = [1;2;3;4;5;6;7;8].
